@@ -5,6 +5,8 @@ NOTES = ("All checks rebuild the xsim binary from /repo's working tree on every 
 LEVEL_TEXT = {
     "C01": "Seeded search: thousands of generated conversations per minute on every messaging transport with the lower layer splitting, delaying and refusing individual reads and writes; every receive is compared with a reference FIFO of accepted messages. Evidence of absence of delivery errors over the explored schedules/fault patterns, not a proof.",
     "C02": "Seeded search over byte-stream conversations (btcp/btls) with self-identifying bytes, partial acceptance, refusals below XCM and below OpenSSL and three retry policies; the received stream is compared byte-exactly with the concatenation of accepted ranges at every receive.",
+    "C03": "Fault enumeration: for every sampled conversation each lower-layer write and each blocking wait made by any operation is made to refuse (EAGAIN, short write + EAGAIN) or be interrupted (EINTR) in a run of its own; a reference FIFO decides exactly-once delivery and a counter snapshot decides 'no trace'. Complete for single faults within each sampled scenario (up to the stated cap), seeded over scenarios and schedules.",
+    "C06": "Fault enumeration: for every sampled conversation each errno of the property's list is injected at each lower read/write index, the peer host dies at each wire byte offset (FIN/RST/silence) and either side closes abruptly before each operation, each in a run of its own, followed by >= 3 rounds of send/receive/finish; a terminal-state reference automaton (delivered prefix, then 0/EPIPE or a sticky errno) judges every API result. Complete for single faults within each sampled scenario (up to the stated cap), seeded over scenarios and schedules.",
     "C04": "Exact lost-wake-up detector: the simulation ends either with every task finished or at global quiescence; since the generated conversations are deadlock-free by construction, an unfinished task at quiescence means a descriptor failed to become readable when it had to. Seeded search over schedules, buffer sizes, segmentation and connection phases.",
     "C05": "Monitor on the simulated kernel over every run: any call that may sleep made inside an API call on a non-blocking socket is a violation regardless of whether it would have been satisfied at once.",
     "C16": "Readiness read directly from the simulated epoll object; spin compression turns a permanently readable descriptor without progress into an exact verdict; xcm_fd stability sampled around every API call.",
@@ -15,8 +17,6 @@ TECHNIQUE = {}
 NOT_APPLICABLE = {
     "C12": "pure codec (xcm_addr_make_*/parse_*): a function of its arguments with no schedule, clock, fault or second party - nothing for a simulator to control (DESIGN.md 3, C12)",
     "C19": "sequential ADT (xcm_attr_map) and pure parser (attr_path): no schedule, clock, fault or interleaving; reference-model equivalence over operation histories is input generation, not simulation (DESIGN.md 3, C19)",
-    "C03": "check not built yet at this commit (planned: failure-point enumeration of every send, DESIGN.md 3 C03)",
-    "C06": "check not built yet at this commit (planned: errno x call-index and crash-point x wire-offset enumeration, DESIGN.md 3 C06)",
     "C07": "check not built yet at this commit (planned: hostile raw peer, DESIGN.md 3 C07)",
     "C08": "check not built yet at this commit (planned: lifecycle programs with resource-call fault enumeration, DESIGN.md 3 C08)",
     "C09": "check not built yet at this commit (planned: generated PKI x policy matrix, DESIGN.md 3 C09)",
